@@ -148,6 +148,24 @@ func pick(r *rng, xs []int) int { return xs[r.intn(len(xs))] }
 
 var ecsHeavy bool
 
+// ECS addresses: random, or one related to the exchange itself (the peer and local addresses the
+// engines use, their v4-mapped forms, the unspecified and broadcast addresses)
+func ecsAddr4(r *rng) []byte {
+	if r.coin(30) {
+		return [][]byte{{127, 0, 0, 9}, {127, 0, 0, 1}, {0, 0, 0, 0}, {255, 255, 255, 255}, {10, 0, 0, 1}, {127, 0, 0, 2}}[r.intn(6)]
+	}
+	return r.bytes(4)
+}
+func ecsAddr6(r *rng) []byte {
+	if r.coin(30) {
+		m := func(a, b, c, d byte) []byte { return []byte{0, 0, 0, 0, 0, 0, 0, 0, 0, 0, 0xff, 0xff, a, b, c, d} }
+		lo := make([]byte, 16)
+		lo[15] = 1
+		return [][]byte{lo, m(127, 0, 0, 9), m(127, 0, 0, 1), make([]byte, 16), m(127, 0, 0, 2)}[r.intn(5)]
+	}
+	return r.bytes(16)
+}
+
 func randOpts(r *rng) []opt {
 	var opts []opt
 	n := r.intn(5)
@@ -162,11 +180,11 @@ func randOpts(r *rng) []opt {
 		switch k {
 		case 0: // ECS v4/32
 			d := []byte{0, 1, 32, 0}
-			d = append(d, r.bytes(4)...)
+			d = append(d, ecsAddr4(r)...)
 			opts = append(opts, opt{8, d})
 		case 1: // ECS v6/128
 			d := []byte{0, 2, 128, 0}
-			d = append(d, r.bytes(16)...)
+			d = append(d, ecsAddr6(r)...)
 			opts = append(opts, opt{8, d})
 		case 2: // ECS other prefix/len
 			fam := []byte{1, 2, 0, 3, 1, 2}[r.intn(6)]
